@@ -408,7 +408,7 @@ def judge(ck, c, im, mo):
 def run(ck: common.Check):
     ck.prove(["GeffProps.C13"])
     ck.rule = ("cases = corpus + ALL labelled DAGs on <=4 nodes up to renaming of labels (both tiers) + all cyclic "
-               "digraphs on <=3 (quick) / <=4 (thorough) nodes (model==implementation only) + all DAGs on <=3 nodes x "
+               "digraphs on <=3 (quick) / <=4 (thorough) nodes (model==implementation only) + all DAGs on <=4 nodes x "
                "every non-empty missing mask x labellings (through validate_data) + sampled DAGs on 5-6 nodes + random "
                "layered forests with divisions/merges up to 40 nodes with the true tracklet labelling and single-edit "
                "corruptions (a quarter with a missing mask); non-trivial = at least one edge or two ids; distinct = "
@@ -421,14 +421,11 @@ def run(ck: common.Check):
     ck.extra["exhaustive_labelled_dags"] = len(cases) - n_corpus
     for n in range(2, 4 if ck.quick else 5):
         cases.extend(exhaustive(n, dag_only=False, cyclic_only=True))
-    for n in range(1, 4):
+    for n in range(1, 5):
         cases.extend(exhaustive_missing(n))
-    if not ck.quick:
-        allm = list(exhaustive_missing(4))
-        cases.extend(ck.rng.sample(allm, 20000))
-    for i in range(1500 if ck.quick else 30000):
+    for i in range(4000 if ck.quick else 60000):
         cases.append(random_small_dag(ck.rng, 5 + i % 2))
-    for i in range(2500 if ck.quick else 40000):
+    for i in range(5000 if ck.quick else 60000):
         cases.append(random_forest(ck.rng, nmax=40 if i % 3 else 12, big=(i % 10 == 0)))
     cases.extend([
         {"nodes": [], "labels": [], "edges": [], "missing": None},
